@@ -110,8 +110,11 @@ class Env(object):
         self.actions.append(('remove', l))
         self.registered[l.name].remove(l)
         self.ctl.log.append('remove_event_listener(%s, %r)' % (l.name, l))
-        d = self.ctl.proto.remove_event_listener(l.name, l)
-        d.addErrback(lambda f: None)
+        try:
+            d = self.ctl.proto.remove_event_listener(l.name, l)
+            d.addErrback(lambda f: None)
+        except Exception as e:
+            self.raised.append(('remove_event_listener', repr(l), type(e).__name__, str(e)))
         return True
 
 
@@ -559,7 +562,18 @@ def run_subs_one(ops, delayed):
             else:
                 l = ls.get((name, i))
                 if l is None or l not in env.registered[name]:
-                    return None          # removing what is not there raises by contract; not explored
+                    # removing what is not registered: refused (it raises, or fails its Deferred) - and changes nothing
+                    if l is None:
+                        l = ls[(name, i)] = Listener(env, name, i, 'rec')
+                        env.all.append(l)
+                    ctl.log.append('remove_event_listener(%s, %r) [not registered]' % (name, l))
+                    try:
+                        d = ctl.proto.remove_event_listener(name, l)
+                        if d is not None:
+                            d.addErrback(lambda f: None)
+                    except Exception:
+                        pass
+                    continue
                 env.remove(l)
             if not delayed:
                 d = answer_pending(ctl, answered, {})
@@ -583,6 +597,9 @@ def run_subs_one(ops, delayed):
         else:
             check_deliveries(env, evs, viol)
         check_setevents(env, ctl, viol)
+        for r in env.raised:
+            if r[0] == 'remove_event_listener':
+                viol.append(('removal-of-registered-listener-raised', r[2], 'removing %s (registered) raised %s: %s' % (r[1], r[2], r[3])))
         errs = [e for e in w.errors() if 'dataReceived raised' not in e[0]]
         if errs:
             viol.append(('logged-error', errs[0][1], '%r' % (errs[:2],)))
